@@ -508,9 +508,11 @@ class MemOrchestrator(BaseOrchestrator):
 
         :param InvocationId invocation_id: The ID of the invocation for which the retry count is to be increased.
         """
-        self.invocation_retries[invocation_id] = (
-            self.invocation_retries.get(invocation_id, 0) + 1
-        )
+        if invocation_id not in self.invocation_retries:
+            # unknown (never registered or purged) invocation: nothing to count,
+            # like the SQLite UPDATE that matches no row
+            return
+        self.invocation_retries[invocation_id] += 1
 
     def get_invocation_retries(self, invocation_id: "InvocationId") -> int:
         """
